@@ -97,7 +97,7 @@ def _model_job(args):
     fam.confs = [None] * idx           # the tour generator is seeded with the configuration's position
     import time as _t
     t0 = _t.time()
-    g, kinds = fam.model(conf, maxlen=maxlen, switch_budget=budget, cover=cover, workers=4)
+    g, kinds = fam.model(conf, maxlen=maxlen, switch_budget=budget, cover=cover, workers=4, timeout=900 if cover == 'class' else 3000)
     for s_ in fam.scripts:
         s_['id'] = '%d:%s' % (idx, s_['id'])
     import shutil
